@@ -235,7 +235,15 @@ func (d *Decoder) ReadNatural() (uint64, error) {
 		return uint64(prefix), nil
 	}
 	if prefix == 0xFF {
-		return d.ReadU64()
+		v, err := d.ReadU64()
+		if err != nil {
+			return 0, err
+		}
+		// the 9-byte form is only minimal for v >= 2^56
+		if v < uint64(1)<<56 {
+			return 0, fmt.Errorf("telemetry: natural value %d not minimally encoded", v)
+		}
+		return v, nil
 	}
 	// l in 1..7. Range size is 1 << (7-l); base is 256 - (1 << (8-l)).
 	for l := uint(1); l <= 7; l++ {
